@@ -44,7 +44,7 @@ def reaction_meta(r):
         "gamma": r.gamma,
         "temp_min": r.temp_min,
         "temp_max": r.temp_max,
-        "reaction_type": int(r.reaction_type),
+        "reaction_type": int(r.reaction_type) if r.reaction_type is not None else None,
         "idxfromfile": r.idxfromfile,
         "format": type(r).format,
         "cls": type(r).__name__,
